@@ -10,9 +10,13 @@ QuickAncestorDefects == LaxTolerated \cup {"emptyInteger", "nonMinimalLength", "
                                             "genTimeFraction", "wrongTag"}
 AllDefects == Defects
 
+Containers == {"struct", "seqof", "setof", "explicit", "optional"}
+Wraps1 == {<<w>> : w \in Containers}
+Wraps2 == Wraps1 \cup {<<a, b>> : a \in Containers, b \in Containers}
+
 \* the type catalogue (plain and inside every container) is printed once
-ASSUME \A s \in ShapeNames : \A w \in {x \in Wraps \cup {"none"} : WrapOK(x, Shapes[s])} :
-          PrintT(<<"SHAPE", ToJson([name |-> s, wrap |-> w, tree |-> Wrap(w, Shapes[s])])>>)
+ASSUME \A s \in ShapeNames : \A w \in {x \in Wraps \cup {<<>>} : WrapAllOK(x, Shapes[s])} :
+          PrintT(<<"SHAPE", ToJson([name |-> s, wrap |-> w, tree |-> WrapAll(w, Shapes[s])])>>)
 
 Export == PrintT(<<"CASE", ToJson([c |-> c, e |-> Verdict(c)])>>)
 =============================================================================
